@@ -745,6 +745,57 @@ example : schemasGet [("A", [(1, 0), (6, 1)]), ("B", [(4, 2)])] 3 "B" = none ∧
     schemasGet [("A", [(1, 0), (6, 1)]), ("B", [(4, 2)])] 5 "B" = some (4, 2) ∧
     schemasGet [("A", [(1, 0), (6, 1)]), ("B", [(4, 2)])] 7 "A" = none := by decide
 
+/-- **lookup_at_class_version.** The lookup `get_schema` performs — at the class's own `op_type.version` — and the
+    lookup at the module's version give the same answer whenever the class carries the since-version of the schema
+    in force at the module's version: for any version list with pairwise distinct since-versions, any module version
+    `v` and class version `cv`, if `s` is in force at `v` and `cv = s.since`, then `_current_schema(l, cv)` is `s`. -/
+theorem lookup_at_class_version (l : List (Nat × σ)) (hn : (l.map (·.1)).Nodup) (v cv : Nat) (s : Nat × σ)
+    (h : currentSchema l (some v) = some s) (hcv : cv = s.1) :
+    currentSchema l (some cv) = currentSchema l (some v) := by
+  rw [h, hcv]
+  exact schema_at_own_version l hn s (current_schema_sound l v s h).1
+
+/-- **shipped_class_binds_in_force** (composition of `table_conforms`, `schema_at_own_version` and
+    `schemas_table_lookup`). For EVERY shipped operator/module pair of this run's tables, every domain table
+    `lists` (as `SCHEMAS_VER_LISTS[domain]`: per name the list of (since-version, schema)) whose since-versions for
+    that operator are pairwise distinct, and every module version `v`: if the schema the pair was checked against
+    is the one in force at `v` in that table, then `SCHEMAS[domain][<class version>][<operator>]` — what
+    `StandardNode.get_schema()` evaluates — **is that same schema**, i.e. the class is bound to the schema in force
+    at its module's version (whose `min_input` / `min_output` the slot theorems then use). -/
+theorem shipped_class_binds_in_force (e : Entry) (he : e ∈ allPairs)
+    (lists : List (String × List (Nat × Schema))) (l : List (Nat × Schema))
+    (hl : findList lists e.2.2.name = some l) (hn : (l.map (·.1)).Nodup) (v : Nat)
+    (hforce : schemasGet lists v e.2.2.name = some (e.2.2.since, e.2.2)) :
+    schemasGet lists e.2.1.cls.version e.2.1.cls.opName = some (e.2.2.since, e.2.2) := by
+  have hs := entryOK_sound e (table_conforms e he)
+  obtain ⟨_, hname, _, hver, _⟩ := hs
+  rw [hname, hver]
+  have hlk := (schemas_table_lookup lists v e.2.2.name (e.2.2.since, e.2.2)).1 hforce
+  obtain ⟨_, l', hl', hcur⟩ := hlk
+  rw [hl] at hl'
+  cases hl'
+  have hmem := (current_schema_sound l v _ hcur).1
+  refine (schemas_table_lookup lists e.2.2.since e.2.2.name (e.2.2.since, e.2.2)).2 ⟨⟨?_, ?_⟩, l, hl, ?_⟩
+  · exact ⟨e.2.2.since, by
+      unfold allSinces
+      exact List.mem_flatMap.2 ⟨(e.2.2.name, l), findList_mem lists _ l hl, List.mem_map.2 ⟨_, hmem, rfl⟩⟩, Nat.le_refl _⟩
+  · exact ⟨e.2.2.since, by
+      unfold allSinces
+      exact List.mem_flatMap.2 ⟨(e.2.2.name, l), findList_mem lists _ l hl, List.mem_map.2 ⟨_, hmem, rfl⟩⟩, Nat.le_refl _⟩
+  · exact schema_at_own_version l hn (e.2.2.since, e.2.2) hmem
+
+/-- non-vacuity: the shipped v17 ReduceSum pair against a three-revision table; the class (version 13) is looked up
+    at 13 and gets the schema in force at 17
+    (a second operator revised at 21 keeps 17 inside the domain's version range) -/
+example :
+    let s := Generated.Schemas.v17.s_ReduceSum_13
+    let old1 : Schema := { s with since := 1 }
+    let old11 : Schema := { s with since := 11 }
+    let lists := [("ReduceSum", [(1, old1), (11, old11), (13, s)]), ("Newer", [(21, s)])]
+    (schemasGet lists 17 "ReduceSum").map (·.1) = some 13 ∧
+    (schemasGet lists 13 "ReduceSum").map (·.1) = some 13 ∧
+    (schemasGet lists 12 "ReduceSum").map (·.1) = some 11 := by decide +kernel
+
 end SchemaSel
 
 end C11
